@@ -33,6 +33,9 @@ func (m *Machine) envIntrinsic2(name string, fn *ssa.Function, args []Value) (Va
 	case "log.Printf", "log.Println", "log.Print":
 		m.stub(name)
 		return nil, true
+	case "time.Sleep":
+		m.stub(name)
+		return nil, true
 	case "crypto/rand.Read":
 		m.stub(name)
 		return TupleV{c.IntI(SI64, int64(args[0].(SliceV).len)), nilErr}, true
